@@ -34,6 +34,7 @@ const CONFUSABLE: &[&[&str]] = &[
     &["ß", "ss", "SS", "ẞ"],
     &["", " ", "  ", "\u{a0}"],
     &["k10", "k9", "k09", "K10"],
+    &["9", "10", "5x", "1e1", "010", "2", "10x"],
 ];
 
 pub fn dict_program(rng: &mut Rng) -> (Program, usize) {
